@@ -116,7 +116,10 @@ Definition run (input : list Z) : list Z :=
   let '(nh, l) := w_next l in
   let '(hints, l) := rd_hints (Z.to_nat nh) l in
   let '(local, _) := rd_resp l in
-  let r := fetch sha256 (sha256 P) mode (negb (ex =? 0)) hints local in
+  (* ex: bit 0 = the manifest has expired on the CLI's clock; bit 1 = the manifest's content hash is 32 zero bytes (whoever
+     hands out the URI chooses the hash: no payload matches this one, so nothing may be written) *)
+  let h := if 2 <=? ex then repeat 0 32 else sha256 P in
+  let r := fetch sha256 h mode (Z.odd ex) hints local in
   [r_exit r] ++ (match r_file r with None => [0] | Some b => 1 :: o_bytes b end) ++ [r_served r]
   ++ map (fun e => if h_kind (snd e) =? 0 then -1
                    else if existsb (Z.eqb (fst e)) (r_tried r) && reachable (h_resp (snd e)) then 1 else 0)
